@@ -13,6 +13,13 @@ CloneTargets == {TModel} \cup {TUnits(i) : i \in DOMAIN M.units} \cup {TComp(i) 
 Emit == IF What = "equality"
         THEN \A mut \in Mutations(M) : EmitScenario([fv |-> fv, am |-> M, mut |-> mut])
         ELSE /\ \A t \in CloneTargets : EmitScenario([fv |-> fv, am |-> M, t |-> t, mut |-> "none", side |-> "none"])
+             \* a reset whose variable / test variable belongs to another component (only the API can build this; the names are
+             \* the same, so the content of the clone is still that of the abstract model): model and component clones
+             /\ \A i \in {k \in DOMAIN M.comps : M.comps[k].resets # <<>> /\ M.comps[k].name # "d1"} : \A a \in {"varOther", "tvarOther"}, t \in {TModel, TComp(i)} :
+                    ((\E k \in DOMAIN M.comps : M.comps[k].name = "d1" /\ M.comps[k].imp = NoneS) /\ (a = "tvarOther" => M.comps[i].resets[1].tvar = "y")) =>
+                    EmitScenario([fv |-> fv, am |-> M, t |-> t, mut |-> "none", side |-> "none",
+                                  pre |-> [op |-> "set", t |-> TReset(i, 1), attr |-> a, val |-> (IF a = "varOther" THEN "x" ELSE "y"),
+                                           oc |-> (CHOOSE k \in DOMAIN M.comps : M.comps[k].name = "d1") - 1]])
              /\ \A mut \in SetMutations(M) \cup ChildMutations(M), side \in {"orig", "clone"} :
                     EmitScenario([fv |-> fv, am |-> M, t |-> TModel, mut |-> mut, side |-> side])
 =============================================================================
